@@ -39,6 +39,8 @@ def is_orthonormal(vectors: list[np.ndarray]) -> bool:
     :return: True if vectors are orthonormal; False otherwise.
 
     """
+    # Accept a list of vectors as documented (not only a 2D array whose rows are the vectors).
+    vectors = np.array([np.asarray(vector).flatten() for vector in vectors])
     return is_mutually_orthogonal(vectors) and np.allclose(
         np.dot(vectors, np.conjugate(vectors).T), np.eye(vectors.shape[0])
     )
